@@ -9,6 +9,7 @@ import (
 	"sync"
 	"sync/atomic"
 	"testing"
+	"time"
 
 	"pgregory.net/rapid"
 	mcp "trpc.group/trpc-go/trpc-mcp-go"
@@ -395,4 +396,148 @@ func judgeC12(c C12Case, recs []*c12Rec) *Failure {
 
 func TestC12(t *testing.T) {
 	RunProp(t, Prop[C12Case]{ID: "C12", Gen: genC12, Exec: execC12, NT: ntC12})
+}
+
+// ---------------------------------------------------------------------------
+// notification handlers registered while client notifications arrive (all three server kinds)
+
+type C12NotifCase struct {
+	Mode       Mode `json:"mode"`       // ModeSJ, ModeLegacy or ModeStdio
+	Registrars int  `json:"registrars"` // goroutines registering handlers concurrently
+	Regs       int  `json:"regs"`       // registrations per registrar (names cycle over a small pool, so names are re-registered)
+	Senders    int  `json:"senders"`    // client connections sending notifications
+	Notifs     int  `json:"notifs"`     // notifications per sender
+}
+
+func registerNotif(server interface{}, method string, h mcp.ServerNotificationHandler) {
+	switch s := server.(type) {
+	case *mcp.Server:
+		s.RegisterNotificationHandler(method, h)
+	case *mcp.SSEServer:
+		s.RegisterNotificationHandler(method, h)
+	case *mcp.StdioServer:
+		s.RegisterNotificationHandler(method, h)
+	}
+}
+
+func execC12Notif(c C12NotifCase) *Failure {
+	w := NewWorld(c.Mode, RegSpec{}, WorldOpt{})
+	defer w.Close()
+	srv := serverOf(w)
+	var stable atomic.Int64
+	registerNotif(srv, "notifications/stable", func(ctx context.Context, n *mcp.JSONRPCNotification) error { stable.Add(1); return nil })
+	senders := c.Senders
+	if c.Mode == ModeStdio {
+		senders = 1
+	}
+	var conns []*Conn
+	for i := 0; i < senders; i++ {
+		conn, err := w.Connect()
+		if err != nil {
+			return Failf("C12/connect", "%v", err)
+		}
+		defer conn.Close()
+		conns = append(conns, conn)
+	}
+	var wg sync.WaitGroup
+	var last sync.Map // name -> the sequence number of a handler registered for it
+	var seq atomic.Int64
+	var hits sync.Map // sequence number -> invoked
+	for r := 0; r < c.Registrars; r++ {
+		wg.Add(1)
+		go func(r int) {
+			defer wg.Done()
+			for k := 0; k < c.Regs; k++ {
+				name := fmt.Sprintf("notifications/plug-%d", (r+k)%5)
+				id := seq.Add(1)
+				registerNotif(srv, name, func(ctx context.Context, n *mcp.JSONRPCNotification) error { hits.Store(id, true); return nil })
+				last.Store(fmt.Sprintf("%s#%d", name, r), id)
+			}
+		}(r)
+	}
+	sendErrs := make([]string, senders)
+	for i, conn := range conns {
+		wg.Add(1)
+		go func(i int, conn *Conn) {
+			defer wg.Done()
+			for k := 0; k < c.Notifs; k++ {
+				body := []byte(fmt.Sprintf(`{"jsonrpc":"2.0","method":"notifications/stable","params":{"k":%d}}`, k))
+				switch c.Mode {
+				case ModeStdio:
+					if _, err := conn.in.Write(append(body, '\n')); err != nil {
+						sendErrs[i] = err.Error()
+					}
+				default:
+					ex := conn.Send(body, "", 0)
+					if ex.Err != nil || ex.Status >= 300 {
+						sendErrs[i] = fmt.Sprintf("status %d err %v", ex.Status, ex.Err)
+					}
+				}
+			}
+		}(i, conn)
+	}
+	wg.Wait()
+	where := fmt.Sprintf("%s: %d registrars x %d registrations while %d senders x %d notifications arrive", c.Mode, c.Registrars, c.Regs, senders, c.Notifs)
+	for i, e := range sendErrs {
+		if e != "" {
+			return Failf("C12/notification-refused", "%s: sender %d: %s", where, i, e)
+		}
+	}
+	want := int64(senders * c.Notifs)
+	deadline := time.Now().Add(Patience())
+	for stable.Load() < want && time.Now().Before(deadline) {
+		time.Sleep(300 * time.Microsecond)
+	}
+	if got := stable.Load(); got != want {
+		return TimingFailf("C12/notification-handler-runs", "%s: the handler that stayed registered throughout ran %d times for %d notifications", where, got, want)
+	}
+	// every name now has one of the handlers registered last by some registrar: one more notification reaches exactly such a one
+	for p := 0; p < 5; p++ {
+		name := fmt.Sprintf("notifications/plug-%d", p)
+		cands := map[int64]bool{}
+		last.Range(func(k, v interface{}) bool {
+			if strings.HasPrefix(k.(string), name+"#") {
+				cands[v.(int64)] = true
+			}
+			return true
+		})
+		if len(cands) == 0 {
+			continue
+		}
+		body := []byte(fmt.Sprintf(`{"jsonrpc":"2.0","method":%q}`, name))
+		if c.Mode == ModeStdio {
+			conns[0].in.Write(append(body, '\n'))
+		} else {
+			conns[0].Send(body, "", 0)
+		}
+		ok := false
+		deadline := time.Now().Add(Patience())
+		for !ok && time.Now().Before(deadline) {
+			for id := range cands {
+				if _, hit := hits.Load(id); hit {
+					ok = true
+				}
+			}
+			if !ok {
+				time.Sleep(300 * time.Microsecond)
+			}
+		}
+		if !ok {
+			return TimingFailf("C12/notification-handler-lost", "%s: a %s notification sent after the registrations reached none of the handlers registered last for it", where, name)
+		}
+	}
+	return nil
+}
+
+func TestC12Notif(t *testing.T) {
+	RunProp(t, Prop[C12NotifCase]{ID: "C12",
+		Gen: func(t *rapid.T) C12NotifCase {
+			return C12NotifCase{Mode: rapid.SampledFrom([]Mode{ModeSJ, ModeLegacy, ModeLegacy, ModeStdio}).Draw(t, "mode"),
+				Registrars: rapid.IntRange(1, 6).Draw(t, "registrars"), Regs: rapid.IntRange(1, 40).Draw(t, "regs"),
+				Senders: rapid.IntRange(1, 3).Draw(t, "senders"), Notifs: rapid.IntRange(1, 60).Draw(t, "notifs")}
+		},
+		Exec: execC12Notif,
+		NT: func(c C12NotifCase) (bool, []string) {
+			return c.Registrars >= 1 && c.Notifs >= 5, []string{"mode=" + c.Mode.String()}
+		}})
 }
